@@ -1415,3 +1415,148 @@ pub fn gen_corpus(dir: &Path) {
         std::fs::write(paths.join(format!("x{i}")), format!("/var/db/cas/{}", rel_path_of(&h))).unwrap();
     }
 }
+
+// =============================================================================================
+// C18 — exhaustive short contents x all chunkings, and the hash <-> path law
+
+pub const C18_EXH_RULE: &str = "exhaustive part: ALL byte strings of length <= 4 over {0x00,0x61,0xFF} (121 contents), each delivered in EVERY composition into non-empty chunks (2^(len-1)) and additionally with an empty chunk inserted at every gap; after finish: get_item == {one-shot blake3, len}, the file sits at the harness-derived path cas/hh/hh/<60 hex> with exactly the bytes, and all chunkings of one content give the same item. Path law: for two base hashes and EVERY byte position x EVERY byte value (16 384 hashes) plus 2 000 random hashes: relative_path has exactly three components of 2/2/60 lowercase hex digits, from_relative_path(relative_path(h)) == h with and without a directory prefix, from_hex(to_hex(h)) == h, and distinct hashes map to distinct paths (set size). non-trivial = content delivered in >=2 chunks or with an empty chunk / hash pair differing in one byte; distinct by (content, chunking) or hash";
+
+#[derive(Clone, Debug, Serialize, Deserialize)]
+pub enum C18Case {
+    /// content bytes, chunk lengths (0 = empty chunk)
+    Chunks { content: Vec<u8>, chunks: Vec<u8> },
+    Path { hash: Vec<u8> },
+}
+
+fn c18_run(case: &C18Case) -> R<CaseMeta> {
+    let mut m = CaseMeta { evals: 1, ..Default::default() };
+    match case {
+        C18Case::Chunks { content, chunks } => {
+            let scratch = Scratch::new("c18");
+            let cas = Cas::<u64>::open(scratch.db(), cfg_n(100, false)).map_err(|e| Fail::new("open-err", format!("{e:?}")))?;
+            let mut tx = cas.put(1).map_err(|e| Fail::new("op-err/put", format!("{e:?}")))?;
+            let mut off = 0usize;
+            for c in chunks {
+                let l = *c as usize;
+                tx.write(&content[off..off + l]).map_err(|e| Fail::new("op-err/write", format!("{e:?}")))?;
+                off += l;
+            }
+            if off != content.len() {
+                panic!("harness: chunking does not cover the content");
+            }
+            tx.finish().map_err(|e| Fail::new("op-err/finish", format!("{e:?}")))?;
+            let h = b3(content);
+            match cas.read_index_state().get_item(&1) {
+                Some(i) if *i.blob_hash.as_bytes() == h && i.blob_size == content.len() as u64 => {}
+                other => fail!("ident/item", "content {content:?} in chunks {chunks:?}: committed item {other:?}, expected hash {} size {}", &hexs(&h)[..12], content.len()),
+            }
+            match std::fs::read(scratch.db().join("cas").join(rel_path_of(&h))) {
+                Ok(d) if d == *content => {}
+                Ok(d) => fail!("ident/file-bytes", "content {content:?} in chunks {chunks:?}: file holds {d:?}"),
+                Err(e) => fail!("ident/file-missing", "content {content:?} in chunks {chunks:?}: no file at the derived path: {e}"),
+            }
+            if list_files(&scratch.db().join("cas")).len() != 1 {
+                fail!("ident/extra-files", "more than one file under cas/ after a single put");
+            }
+            if chunks.len() >= 2 {
+                m.nontrivial.push(hash_json(case));
+            }
+        }
+        C18Case::Path { hash } => {
+            let h: [u8; 32] = hash[..].try_into().expect("harness: hash length");
+            let bh = BlobHash::from_bytes(h);
+            let p = bh.relative_path();
+            let comps: Vec<String> = p.components().map(|c| c.as_os_str().to_string_lossy().to_string()).collect();
+            let ok = comps.len() == 3 && comps[0].len() == 2 && comps[1].len() == 2 && comps[2].len() == 60 && comps.iter().all(|c| c.bytes().all(|b| b.is_ascii_digit() || (b'a'..=b'f').contains(&b)));
+            if !ok || comps.join("/") != rel_path_of(&h) {
+                fail!("path/shape", "relative_path of {} is {p:?}", hexs(&h));
+            }
+            for pre in ["", "/var/lib/db/cas", "x"] {
+                let full = if pre.is_empty() { p.clone() } else { Path::new(pre).join(&p) };
+                match BlobHash::from_relative_path(&full) {
+                    Ok(back) if back == bh => {}
+                    other => fail!("path/parse-back", "from_relative_path({full:?}) = {other:?}"),
+                }
+            }
+            match BlobHash::from_hex(&bh.to_hex()) {
+                Ok(back) if back == bh => {}
+                other => fail!("path/hex-roundtrip", "from_hex(to_hex(h)) = {other:?}"),
+            }
+            m.nontrivial.push(hash_json(case));
+        }
+    }
+    Ok(m)
+}
+
+pub fn run_c18_exhaustive(ctx: &Ctx, acc: &Mutex<Acc>) -> Option<Violation> {
+    let mut items: Vec<C18Case> = Vec::new();
+    let alpha = [0x00u8, 0x61, 0xFF];
+    let mut contents: Vec<Vec<u8>> = vec![vec![]];
+    let mut frontier: Vec<Vec<u8>> = vec![vec![]];
+    for _ in 0..4 {
+        let mut next = Vec::new();
+        for c in &frontier {
+            for a in alpha {
+                let mut d = c.clone();
+                d.push(a);
+                next.push(d);
+            }
+        }
+        contents.extend(next.iter().cloned());
+        frontier = next;
+    }
+    for content in &contents {
+        let n = content.len();
+        // compositions: bitmask over the n-1 gaps
+        let comps = if n == 0 { 1 } else { 1usize << (n - 1) };
+        for mask in 0..comps {
+            let mut chunks: Vec<u8> = Vec::new();
+            let mut cur = 0u8;
+            for i in 0..n {
+                cur += 1;
+                if i + 1 == n || mask & (1 << i) != 0 {
+                    chunks.push(cur);
+                    cur = 0;
+                }
+            }
+            items.push(C18Case::Chunks { content: content.clone(), chunks: chunks.clone() });
+            // an empty chunk at every gap (including both ends)
+            for g in 0..=chunks.len() {
+                let mut c2 = chunks.clone();
+                c2.insert(g, 0);
+                items.push(C18Case::Chunks { content: content.clone(), chunks: c2 });
+            }
+        }
+    }
+    if let Some(v) = enumerate(ctx, acc, "chunkings-exhaustive", "C18X", items, c18_run) {
+        return Some(v);
+    }
+    let mut hashes: Vec<[u8; 32]> = Vec::new();
+    for base in [0u8, 0xa5] {
+        for pos in 0..32 {
+            for v in 0..=255u8 {
+                let mut h = [base; 32];
+                h[pos] = v;
+                hashes.push(h);
+            }
+        }
+    }
+    for i in 0..2000u64 {
+        hashes.push(b3(&(i ^ ctx.seed.wrapping_mul(0x9E37_79B9)).to_le_bytes()));
+    }
+    hashes.sort();
+    hashes.dedup();
+    // injectivity over the whole sample
+    let paths: std::collections::BTreeSet<String> = hashes.iter().map(|h| BlobHash::from_bytes(*h).relative_path().to_string_lossy().to_string()).collect();
+    if paths.len() != hashes.len() {
+        return Some(Violation { sig: "path/not-injective".into(), detail: format!("{} distinct hashes map to {} distinct paths", hashes.len(), paths.len()), case: serde_json::json!({"Path": {"hash": []}}), engine: "C18X".into() });
+    }
+    let items: Vec<C18Case> = hashes.into_iter().map(|h| C18Case::Path { hash: h.to_vec() }).collect();
+    let v = enumerate(ctx, acc, "path-law", "C18X", items, c18_run);
+    acc.lock().unwrap().exhaustive = false;
+    v
+}
+
+pub fn replay_c18x(case: serde_json::Value) -> R<CaseMeta> {
+    c18_run(&serde_json::from_value(case).expect("harness: bad C18X case"))
+}
